@@ -89,6 +89,20 @@ ConvertList(top, names, env) ==
   ELSE IF \E i \in DOMAIN us : QIsZero(us[i].v) THEN VUnknown
   ELSE VList(top.v, [i \in DOMAIN us |-> us[i].v])
 
+(* A power whose exponent is a float-valued expression.  The specification does not determine float values   *)
+(* (Ev answers "unknown"), but GIVEN the value x the code computed for the exponent on its own - observed by  *)
+(* evaluating the exponent expression alone; a float is an exact binary rational - the dimensional rule is    *)
+(* the one for a rational exponent of that value: whole -> the integer power, 1/n -> the root if exact,       *)
+(* anything else -> refused for a base that carries units.                                                     *)
+PowWithObservedExponent(e, x, env) ==
+  IF e.k # "bin" \/ e.op # "pow" THEN VUnknown
+  ELSE LET a == Ev(e.l, env) IN
+       IF a.t = "err" THEN a
+       ELSE LET b == Ev(e.r, env) IN
+            IF b.t = "err" THEN b
+            ELSE IF b.t # "float" \/ ~IsNumLike(a) THEN VUnknown
+            ELSE NumPow(a, VNum(x, b.d))
+
 QueryValue(q, env) ==
   CASE q.k = "qerr" -> VErr("generic")
     [] q.k = "expr" ->
